@@ -246,8 +246,9 @@ func (fx *FnExec) frameFormula(st *State, name string, cur Term, allowed map[str
 	if cur == init {
 		return "", false
 	}
-	if strings.HasPrefix(name, "ghost.chan") {
-		// channel ghost state follows Go's channel semantics, not a frame
+	if strings.HasPrefix(name, "ghost.chan") || strings.HasPrefix(name, "gv.") {
+		// channel ghost state follows Go's channel semantics, not a frame;
+		// ghost locals are not observable
 		return "", false
 	}
 	a := allowed[name]
@@ -359,7 +360,7 @@ func (fx *FnExec) finalizeAxioms() []string {
 	var out []string
 	// spec-level axioms
 	for _, c := range fx.P.Specs.Axioms {
-		env := &evalEnv{fx: fx, st: &State{fx: fx, heap: map[string]Term{}}, vars: map[string]cval{}}
+		env := &evalEnv{fx: fx, st: &State{fx: fx, heap: map[string]Term{}}, vars: map[string]cval{}, pkg: fx.P.TypesPkgs[c.Label]}
 		v, err := env.safeEval(c.Expr)
 		if err != nil {
 			panic(fmt.Sprintf("%s:%d: %v", c.File, c.Line, err))
